@@ -836,3 +836,593 @@ attribute [local spec] runExecute_ext
 
 
 end Redress
+
+/-! ## A third relation: quiet exchanges, exact time, and how a leaf fails  (used by C03, C10-policy)
+
+`FootQ R w w'`: `w'` arises from `w` by appending exchanges whose REQUESTS satisfy `R` and whose
+answers are *quiet* (not a `raise`, or a `raise` of an `Exception` by an observability hook, which the
+library swallows); the clock advanced by exactly the durations of those answers; `rs` is unchanged
+(procedures that set `last_stop_reason` are not leaves in this sense).  `FootE R e w w'`: the same, except that the procedure failed with `e` because
+the newest exchange is the `raise e` (all earlier ones quiet). -/
+
+namespace Redress
+open Retry
+
+/-- total duration of a list of exchanges -/
+def dsum : List (Req × Ans) → Nat
+  | [] => 0
+  | x :: t => x.2.dur + dsum t
+
+theorem dsum_append (a b : List (Req × Ans)) : dsum (a ++ b) = dsum a + dsum b := by
+  induction a with
+  | nil => simp [dsum]
+  | cons x a ih => simp [dsum, ih]; omega
+
+/-- hooks whose `Exception`s the library swallows -/
+def swallowedReq : Req → Bool
+  | .metric .. | .log .. | .beforeSleep .. => true
+  | _ => false
+
+/-- an exchange after which the procedure that made it goes on -/
+def quietX (x : Req × Ans) : Bool :=
+  match x.2 with
+  | .raise e _ => swallowedReq x.1 && e.isException
+  | _ => true
+
+def QuietAll (R : Req → Bool) (δ : List (Req × Ans)) : Prop := ∀ x ∈ δ, R x.1 = true ∧ quietX x = true
+
+structure FootQ (R : Req → Bool) (w w' : World) : Prop where
+  trace : ∃ δ, w'.trace = δ ++ w.trace ∧ QuietAll R δ ∧ w'.now = w.now + dsum δ
+  rs : w'.rs = w.rs
+  attempts : w'.attempts = w.attempts
+  opCalls : w'.opCalls = w.opCalls
+  returned : w'.as.returned = w.as.returned
+
+structure FootE (R : Req → Bool) (e : Exn) (w w' : World) : Prop where
+  trace : ∃ δ, w'.trace = δ ++ w.trace ∧ w'.now = w.now + dsum δ ∧
+    ∃ r d δ', δ = (r, Ans.raise e d) :: δ' ∧ R r = true ∧ QuietAll R δ'
+  rs : w'.rs = w.rs
+  attempts : w'.attempts = w.attempts
+  opCalls : w'.opCalls = w.opCalls
+  returned : w'.as.returned = w.as.returned
+
+theorem QuietAll.nil (R : Req → Bool) : QuietAll R [] := by intro x hx; cases hx
+
+theorem QuietAll.append {R : Req → Bool} {a b : List (Req × Ans)} (ha : QuietAll R a) (hb : QuietAll R b) :
+    QuietAll R (a ++ b) := by
+  intro x hx
+  rcases List.mem_append.mp hx with h | h
+  · exact ha x h
+  · exact hb x h
+
+theorem FootQ.refl (R : Req → Bool) (w : World) : FootQ R w w :=
+  ⟨⟨[], by simp, QuietAll.nil R, by simp [dsum]⟩, rfl, rfl, rfl, rfl⟩
+
+theorem FootQ.trans {R : Req → Bool} {w₁ w₂ w₃ : World} (h₁ : FootQ R w₁ w₂) (h₂ : FootQ R w₂ w₃) :
+    FootQ R w₁ w₃ := by
+  obtain ⟨δ₁, e₁, q₁, t₁⟩ := h₁.trace
+  obtain ⟨δ₂, e₂, q₂, t₂⟩ := h₂.trace
+  refine ⟨⟨δ₂ ++ δ₁, by simp [e₂, e₁], q₂.append q₁, by rw [t₂, t₁, dsum_append]; omega⟩, ?_, ?_, ?_, ?_⟩
+  · rw [h₂.rs, h₁.rs]
+  · rw [h₂.attempts, h₁.attempts]
+  · rw [h₂.opCalls, h₁.opCalls]
+  · rw [h₂.returned, h₁.returned]
+
+theorem FootE.trans_left {R : Req → Bool} {e : Exn} {w₁ w₂ w₃ : World} (h₁ : FootQ R w₁ w₂)
+    (h₂ : FootE R e w₂ w₃) : FootE R e w₁ w₃ := by
+  obtain ⟨δ₁, e₁, q₁, t₁⟩ := h₁.trace
+  obtain ⟨δ₂, e₂, t₂, c⟩ := h₂.trace
+  refine ⟨⟨δ₂ ++ δ₁, by simp [e₂, e₁], by rw [t₂, t₁, dsum_append]; omega, ?_⟩, ?_, ?_, ?_, ?_⟩
+  · obtain ⟨r, d, δ', hd, hr, q'⟩ := c
+    exact ⟨r, d, δ' ++ δ₁, by simp [hd], hr, q'.append q₁⟩
+  · rw [h₂.rs, h₁.rs]
+  · rw [h₂.attempts, h₁.attempts]
+  · rw [h₂.opCalls, h₁.opCalls]
+  · rw [h₂.returned, h₁.returned]
+
+theorem FootQ.mono {R R' : Req → Bool} {w w' : World} (h : FootQ R w w')
+    (hr : ∀ r, R r = true → R' r = true) : FootQ R' w w' := by
+  obtain ⟨δ, e, q, t⟩ := h.trace
+  exact ⟨⟨δ, e, fun x hx => ⟨hr _ (q x hx).1, (q x hx).2⟩, t⟩, h.rs, h.attempts, h.opCalls, h.returned⟩
+
+theorem FootE.mono {R R' : Req → Bool} {e : Exn} {w w' : World} (h : FootE R e w w')
+    (hr : ∀ r, R r = true → R' r = true) : FootE R' e w w' := by
+  obtain ⟨δ, e₁, t, c⟩ := h.trace
+  refine ⟨⟨δ, e₁, t, ?_⟩, h.rs, h.attempts, h.opCalls, h.returned⟩
+  obtain ⟨r, d, δ', hd, hr', q'⟩ := c
+  exact ⟨r, d, δ', hd, hr _ hr', fun x hx => ⟨hr _ (q' x hx).1, (q' x hx).2⟩⟩
+
+/-- an `Exception` raised by a hook whose exceptions are swallowed: the procedure goes on -/
+theorem FootE.swallow {R : Req → Bool} {e : Exn} {w w' : World} (h : FootE R e w w')
+    (hs : ∀ r, R r = true → swallowedReq r = true) (he : e.isException = true) : FootQ R w w' := by
+  obtain ⟨δ, e₁, t, c⟩ := h.trace
+  refine ⟨⟨δ, e₁, ?_, t⟩, h.rs, h.attempts, h.opCalls, h.returned⟩
+  obtain ⟨r, d, δ', hd, hr', q'⟩ := c
+  subst hd
+  intro x hx
+  rcases List.mem_cons.mp hx with rfl | hx
+  · exact ⟨hr', by simp [quietX, hs r hr', he]⟩
+  · exact q' x hx
+
+/-- one quiet exchange -/
+theorem FootQ.exchange {R : Req → Bool} (w : World) (r : Req) (a : Ans) (rest : List Ans)
+    (hr : R r = true) (hq : quietX (r, a) = true) :
+    FootQ R w { w with answers := rest, now := w.now + a.dur, trace := (r, a) :: w.trace } :=
+  ⟨⟨[(r, a)], rfl, by intro x hx; simp at hx; subst hx; exact ⟨hr, hq⟩, by simp [dsum]⟩, rfl, rfl, rfl, rfl⟩
+
+/-- one exchange answered by a raise -/
+theorem FootE.exchange {R : Req → Bool} (w : World) (r : Req) (e : Exn) (d : Nat) (rest : List Ans)
+    (hr : R r = true) :
+    FootE R e w { w with answers := rest, now := w.now + (Ans.raise e d).dur, trace := (r, Ans.raise e d) :: w.trace } :=
+  ⟨⟨[(r, Ans.raise e d)], rfl, by simp [dsum], ⟨r, d, [], rfl, hr, QuietAll.nil R⟩⟩, rfl, rfl, rfl, rfl⟩
+
+/-- the oracle is exhausted: logged as a raise of `stuck` that takes no time -/
+theorem FootE.stuck {R : Req → Bool} (w : World) (r : Req) (hr : R r = true) :
+    FootE R .stuck w { w with trace := (r, Ans.raise .stuck 0) :: w.trace } :=
+  ⟨⟨[(r, Ans.raise .stuck 0)], rfl, by simp [dsum, Ans.dur], ⟨r, 0, [], rfl, hr, QuietAll.nil R⟩⟩,
+   rfl, rfl, rfl, rfl⟩
+
+/-- changes outside the footprint's concern -/
+theorem FootQ.frame {R : Req → Bool} (w : World) (as : AState)
+    (tl : List TimelineEv) (tls : Nat) (bud : Budget.St) (br : Breaker.St) (xc : XCtx)
+    (has : as.returned = w.as.returned) :
+    FootQ R w { w with as := as, timeline := tl, tlStart := tls, budget := bud, breaker := br, xc := xc } :=
+  ⟨⟨[], rfl, QuietAll.nil R, by simp [dsum]⟩, rfl, rfl, rfl, has⟩
+
+/-- an interaction with an embedded component, logged without consuming an oracle answer -/
+theorem FootQ.internal {R : Req → Bool} (w : World) (r : Req) (a : Ans) (bud : Budget.St)
+    (br : Breaker.St) (xc : XCtx) (hr : R r = true) (hq : quietX (r, a) = true) (hd : a.dur = 0) :
+    FootQ R w { w with trace := (r, a) :: w.trace, budget := bud, breaker := br, xc := xc } :=
+  ⟨⟨[(r, a)], rfl, by intro x hx; simp at hx; subst hx; exact ⟨hr, hq⟩, by simp [dsum, hd]⟩, rfl, rfl, rfl, rfl⟩
+
+end Redress
+
+namespace Redress
+open Retry
+
+abbrev fqPost (R : Req → Bool) (w0 : World) : PostCond α (.except Exn (.arg World .pure)) :=
+  post⟨fun _ w => ⌜FootQ R w0 w⌝, fun e w => ⌜FootE R e w0 w⌝⟩
+
+theorem quietX_of_not_raise (r : Req) (a : Ans) (h : ∀ e d, a = Ans.raise e d → False) :
+    quietX (r, a) = true := by
+  cases a <;> simp_all [quietX]
+
+syntax "fq_chain" : tactic
+macro_rules
+  | `(tactic| fq_chain) => `(tactic| first
+      | assumption
+      | exact FootQ.refl _ _
+      | exact FootQ.frame _ _ _ _ _ _ _ rfl
+      | exact FootQ.internal _ _ _ _ _ _ (by first | assumption | (simp_all; done)) rfl rfl
+      | exact FootQ.exchange _ _ _ _ (by first | assumption | (simp_all; done)) (quietX_of_not_raise _ _ (by assumption))
+      | exact FootE.exchange _ _ _ _ _ (by first | assumption | (simp_all; done))
+      | exact FootE.stuck _ _ (by first | assumption | (simp_all; done))
+      | (refine FootQ.trans (by assumption) ?_; fq_chain)
+      | (refine FootE.trans_left (by assumption) ?_; fq_chain)
+      | (refine FootQ.trans ?_ (by assumption); fq_chain)
+      | (refine FootE.trans_left ?_ (by assumption); fq_chain))
+
+macro "fq_close" : tactic => `(tactic| all_goals (
+  (try subst_vars) <;> (try intros) <;> (try simp only [restore_dummy] at *) <;>
+  (try simp only [true_and, and_true, ne_eq, reduceCtorEq, not_false_eq_true, false_implies, implies_true, forall_const]) <;>
+  first
+    | assumption
+    | rfl
+    | fq_chain
+    | (simp_all; done)
+    | (and_intros <;> first | assumption | rfl | fq_chain | (simp_all +zetaDelta; done))
+    | skip))
+
+/-- from a spec for a smaller request set (started anywhere) to one for a larger set -/
+theorem fq_lift {α : Type} {x : M α} {R2 R : Req → Bool} (hr : ∀ r, R2 r = true → R r = true)
+    (h : ∀ w0, ⦃fun w => ⌜FootQ R2 w0 w⌝⦄ x ⦃fqPost R2 w0⦄) (w0 : World) :
+    ⦃fun w => ⌜FootQ R w0 w⌝⦄ x ⦃fqPost R w0⦄ := by
+  apply triple_of_run
+  intro w hw
+  have := adequacy (h w) w (FootQ.refl R2 w)
+  split <;> simp_all
+  · exact hw.trans (this.mono hr)
+  · exact FootE.trans_left hw (this.mono hr)
+
+section
+variable (R : Req → Bool) (w0 : World)
+
+/-- `ask r`: one exchange for `r`; it fails exactly when the answer is a `raise` -/
+theorem ask_fq (r : Req) (hr : R r = true) :
+    ⦃fun w => ⌜FootQ R w0 w⌝⦄ ask r ⦃fqPost R w0⦄ := by
+  mvcgen [ask]
+  fq_close
+
+attribute [local spec] ask_fq
+
+theorem askMetric_fq (ev : Event) (a s : Nat) (t : Tags) (hm : R (.metric ev a s t) = true) :
+    ⦃fun w => ⌜FootQ R w0 w⌝⦄ askMetric ev a s t ⦃fqPost R w0⦄ := by
+  mvcgen [askMetric]
+  fq_close
+
+theorem askLog_fq (ev : Event) (a s : Nat) (t : Tags) (ra : Option Int) (hl : R (.log ev a s t ra) = true) :
+    ⦃fun w => ⌜FootQ R w0 w⌝⦄ askLog ev a s t ra ⦃fqPost R w0⦄ := by
+  mvcgen [askLog]
+  fq_close
+
+theorem recordTimeline_fq (ev : Event) (a s : Nat) (t : Tags) :
+    ⦃fun w => ⌜FootQ R w0 w⌝⦄ recordTimeline ev a s t ⦃fqPost R w0⦄ := by
+  mvcgen [recordTimeline]
+  fq_close
+
+end
+end Redress
+
+namespace Redress
+open Retry
+
+/-- inside `try: … except Exception: pass`: a swallowed failure is a quiet step -/
+macro_rules
+  | `(tactic| fq_chain) => `(tactic| first
+      | exact FootE.swallow (by assumption) (by assumption) (by assumption)
+      | (refine FootQ.trans (FootE.swallow (by assumption) (by assumption) (by assumption)) ?_; fq_chain)
+      | (refine FootE.trans_left (FootE.swallow (by assumption) (by assumption) (by assumption)) ?_; fq_chain))
+
+section
+variable (R : Req → Bool) (w0 : World)
+
+attribute [local spec] ask_fq askMetric_fq askLog_fq recordTimeline_fq
+
+theorem metricHook_fq (cfg : Cfg) (tl : Bool) (ev : Event) (a s : Nat) (t : Tags)
+    (hm : R (.metric ev a s t) = true) :
+    ⦃fun w => ⌜FootQ R w0 w⌝⦄ metricHook cfg tl ev a s t ⦃fqPost R w0⦄ := by
+  mvcgen [metricHook]
+  fq_close
+
+attribute [local spec] metricHook_fq
+
+/-- `emit`, when every request it can make is one whose `Exception`s are swallowed -/
+theorem emit_fq_aux (hs : ∀ r, R r = true → swallowedReq r = true) (cfg : Cfg) (tl : Bool) (ev : Event)
+    (attempt sleep : Nat) (klass : Option EClass) (exc : Option Exn) (stop : Option StopReason)
+    (cause : Option Cause) (cls : Option Classification)
+    (hm : ∀ t, R (.metric ev attempt sleep t) = true) (hl : ∀ t ra, R (.log ev attempt sleep t ra) = true) :
+    ⦃fun w => ⌜FootQ R w0 w⌝⦄ emit cfg tl ev attempt sleep klass exc stop cause cls ⦃fqPost R w0⦄ := by
+  mvcgen [emit, swallowException]
+  fq_close
+
+end
+
+/-- `emit`: requests only the metric / log hook for this event, and fails only when one of them
+    raises something that is not an `Exception` -/
+theorem emit_fq (R : Req → Bool) (w0 : World) (cfg : Cfg) (tl : Bool) (ev : Event)
+    (attempt sleep : Nat) (klass : Option EClass) (exc : Option Exn) (stop : Option StopReason)
+    (cause : Option Cause) (cls : Option Classification)
+    (hm : ∀ t, R (.metric ev attempt sleep t) = true) (hl : ∀ t ra, R (.log ev attempt sleep t ra) = true) :
+    ⦃fun w => ⌜FootQ R w0 w⌝⦄ emit cfg tl ev attempt sleep klass exc stop cause cls ⦃fqPost R w0⦄ :=
+  fq_lift (R2 := fun r => R r && swallowedReq r) (by simp_all)
+    (fun w0 => emit_fq_aux _ w0 (by simp_all) cfg tl ev attempt sleep klass exc stop cause cls
+      (by simp [hm, swallowedReq]) (by simp [hl, swallowedReq])) w0
+
+end Redress
+
+namespace Redress
+open Retry
+
+section
+variable (R : Req → Bool) (w0 : World)
+
+attribute [local spec] ask_fq
+
+theorem recordStrategySuccess_fq (cfg : Cfg) (hs : ∀ k, R (.stratRecordSuccess k) = true) :
+    ⦃fun w => ⌜FootQ R w0 w⌝⦄ recordStrategySuccess cfg ⦃fqPost R w0⦄ := by
+  mvcgen [recordStrategySuccess, getRS]
+  fq_close
+
+theorem stratRecordFailure_fq (cfg : Cfg) (key : SKey) (k : EClass) (hs : R (.stratRecordFailure key k) = true) :
+    ⦃fun w => ⌜FootQ R w0 w⌝⦄ stratRecordFailure cfg key k ⦃fqPost R w0⦄ := by
+  mvcgen [stratRecordFailure]
+  fq_close
+
+theorem callAttemptStart_fq (cfg : Cfg) (attempt : Nat) (hs : ∀ c, R (.attemptStart c) = true) :
+    ⦃fun w => ⌜FootQ R w0 w⌝⦄ callAttemptStart cfg attempt ⦃fqPost R w0⦄ := by
+  mvcgen [callAttemptStart, elapsed]
+  fq_close
+
+theorem callAttemptEnd_fq (cfg : Cfg) (attempt : Nat) (cls : Option Classification) (exc : Option Exn)
+    (result : Option Nat) (d : AttemptDecision) (stop : Option StopReason) (cause : Option Cause)
+    (sleep : Option Nat) (he : ∀ c, R (.attemptEnd c) = true) :
+    ⦃fun w => ⌜FootQ R w0 w⌝⦄ callAttemptEnd cfg attempt cls exc result d stop cause sleep
+    ⦃fqPost R w0⦄ := by
+  mvcgen [callAttemptEnd, elapsed]
+  fq_close
+
+attribute [local spec] callAttemptEnd_fq recordStrategySuccess_fq
+
+theorem callAttemptEndFromOutcome_fq (cfg : Cfg) (attempt : Nat) (o : AOutcome)
+    (he : ∀ c, R (.attemptEnd c) = true) :
+    ⦃fun w => ⌜FootQ R w0 w⌝⦄ callAttemptEndFromOutcome cfg attempt o ⦃fqPost R w0⦄ := by
+  mvcgen [callAttemptEndFromOutcome]
+  fq_close
+
+theorem callBeforeSleep_fq_aux (hs : ∀ r, R r = true → swallowedReq r = true) (cfg : Cfg)
+    (ctx : BackoffCtx) (sleep : Nat) (hb : ∀ lvl, R (.beforeSleep lvl ctx sleep) = true) :
+    ⦃fun w => ⌜FootQ R w0 w⌝⦄ callBeforeSleep cfg ctx sleep ⦃fqPost R w0⦄ := by
+  mvcgen [callBeforeSleep, swallowException]
+  fq_close
+
+theorem buildOutcome_fq (ok : Bool) (value : Option Nat) (attempts : Nat) (ns : Option Nat) :
+    ⦃fun w => ⌜FootQ R w0 w⌝⦄ buildOutcome ok value attempts ns ⦃fqPost R w0⦄ := by
+  mvcgen [buildOutcome, getRS, elapsed]
+  fq_close
+
+theorem handleAbortAttemptEnd_fq (cfg : Cfg) (attempt : Nat) (e : Exn) (he : ∀ c, R (.attemptEnd c) = true) :
+    ⦃fun w => ⌜FootQ R w0 w⌝⦄ handleAbortAttemptEnd cfg attempt e ⦃fqPost R w0⦄ := by
+  mvcgen [handleAbortAttemptEnd, getAS, modifyAS]
+  fq_close
+
+end
+
+theorem callBeforeSleep_fq (R : Req → Bool) (w0 : World) (cfg : Cfg) (ctx : BackoffCtx) (sleep : Nat)
+    (hb : ∀ lvl, R (.beforeSleep lvl ctx sleep) = true) :
+    ⦃fun w => ⌜FootQ R w0 w⌝⦄ callBeforeSleep cfg ctx sleep ⦃fqPost R w0⦄ :=
+  fq_lift (R2 := fun r => R r && swallowedReq r) (by simp_all)
+    (fun w0 => callBeforeSleep_fq_aux _ w0 (by simp_all) cfg ctx sleep (by simp [hb, swallowedReq])) w0
+
+theorem handleSuccessAttemptEnd_fq (R : Req → Bool) (w0 : World) (cfg : Cfg) (tl : Bool) (attempt v : Nat)
+    (hm : ∀ t, R (.metric .success attempt 0 t) = true) (hl : ∀ t ra, R (.log .success attempt 0 t ra) = true)
+    (hs : ∀ k, R (.stratRecordSuccess k) = true) (he : ∀ c, R (.attemptEnd c) = true) :
+    ⦃fun w => ⌜FootQ R w0 w⌝⦄ handleSuccessAttemptEnd cfg tl attempt v ⦃fqPost R w0⦄ := by
+  have h1 := fun w1 => recordStrategySuccess_fq R w1 cfg hs
+  have h2 := fun w1 => emit_fq R w1 cfg tl .success attempt 0 none none none none none hm hl
+  have h3 := fun w1 a b c d e f g => callAttemptEnd_fq R w1 cfg attempt a b c d e f g he
+  mvcgen [handleSuccessAttemptEnd, h1, h2, h3]
+  fq_close
+
+end Redress
+
+namespace Redress
+open Retry Policy
+
+/-- the events a breaker announces -/
+def Event.isCircuit : Event → Bool
+  | .circuitOpened | .circuitHalfOpen | .circuitClosed | .circuitRejected => true
+  | _ => false
+
+theorem Breaker.allow_ev (c : Breaker.Cfg) (s : Breaker.St) (now : Nat) (ev : Event)
+    (h : (Breaker.allow c s now).1.2.2 = some ev) : ev.isCircuit = true := by
+  unfold Breaker.allow at h
+  split at h <;> (try simp +zeta only [] at h) <;> (try split at h) <;> simp at h <;> subst h <;> rfl
+
+theorem Breaker.recordSuccess_ev (s : Breaker.St) (ev : Event)
+    (h : (Breaker.recordSuccess s).1 = some ev) : ev.isCircuit = true := by
+  unfold Breaker.recordSuccess at h
+  split at h <;> simp at h; subst h; rfl
+
+theorem Breaker.recordFailure_ev (c : Breaker.Cfg) (s : Breaker.St) (k : EClass) (now : Nat) (ev : Event)
+    (h : (Breaker.recordFailure c s k now).1 = some ev) : ev.isCircuit = true := by
+  unfold Breaker.recordFailure at h
+  split at h <;> (try simp +zeta only [] at h) <;> (try split at h) <;> (try split at h) <;>
+    (try split at h) <;> simp at h <;> subst h <;> rfl
+
+section
+variable (R : Req → Bool) (w0 : World)
+
+attribute [local spec] ask_fq askMetric_fq askLog_fq
+
+theorem emitBreakerEvent_fq_aux (hs : ∀ r, R r = true → swallowedReq r = true) (cfg : Cfg)
+    (ev : Option Event) (st : CState) (k : Option EClass)
+    (hm : ∀ ev', ev = some ev' → ∀ t, R (.metric ev' 0 0 t) = true)
+    (hl : ∀ ev', ev = some ev' → ∀ t, R (.log ev' 0 0 t none) = true) :
+    ⦃fun w => ⌜FootQ R w0 w⌝⦄ emitBreakerEvent cfg ev st k ⦃fqPost R w0⦄ := by
+  mvcgen [emitBreakerEvent, swallowException]
+  fq_close
+
+end
+
+/-- `_emit_breaker_event`: the metric / log hook for that event only -/
+theorem emitBreakerEvent_fq (R : Req → Bool) (w0 : World) (cfg : Cfg) (ev : Option Event) (st : CState)
+    (k : Option EClass)
+    (hm : ∀ ev', ev = some ev' → ∀ t, R (.metric ev' 0 0 t) = true)
+    (hl : ∀ ev', ev = some ev' → ∀ t, R (.log ev' 0 0 t none) = true) :
+    ⦃fun w => ⌜FootQ R w0 w⌝⦄ emitBreakerEvent cfg ev st k ⦃fqPost R w0⦄ :=
+  fq_lift (R2 := fun r => R r && swallowedReq r) (by simp_all)
+    (fun w0 => emitBreakerEvent_fq_aux _ w0 (by simp_all) cfg ev st k
+      (by intro ev' h t; simp [hm ev' h, swallowedReq]) (by intro ev' h t; simp [hl ev' h, swallowedReq])) w0
+
+end Redress
+
+namespace Redress
+open Retry Policy
+
+section
+variable (R : Req → Bool) (w0 : World)
+  (hbm : ∀ ev, ev.isCircuit = true → ∀ t, R (.metric ev 0 0 t) = true)
+  (hbl : ∀ ev, ev.isCircuit = true → ∀ t, R (.log ev 0 0 t none) = true)
+
+attribute [local spec] ask_fq
+
+theorem breakerAllow_fq (bc : Breaker.Cfg) (ha : R .breakerAllow = true) :
+    ⦃fun w => ⌜FootQ R w0 w⌝⦄ breakerAllow bc ⦃fqPost R w0⦄ := by
+  mvcgen [breakerAllow]
+  fq_close
+
+theorem initCtx_fq : ⦃fun w => ⌜FootQ R w0 w⌝⦄ initCtx ⦃fqPost R w0⦄ := by
+  mvcgen [initCtx]
+  fq_close
+
+theorem policyOutcome_fq (ok : Bool) (value : Option Nat) (stop : Option StopReason) (attempts : Nat)
+    (lc : Option EClass) (le : Option String) (cause : Option Cause) :
+    ⦃fun w => ⌜FootQ R w0 w⌝⦄ policyOutcome ok value stop attempts lc le cause ⦃fqPost R w0⦄ := by
+  mvcgen [policyOutcome, xElapsed]
+  fq_close
+
+theorem recordCancel_fq (cfg : Cfg) (hc : R .breakerCancel = true) :
+    ⦃fun w => ⌜FootQ R w0 w⌝⦄ Policy.recordCancel cfg ⦃fqPost R w0⦄ := by
+  mvcgen [Policy.recordCancel]
+  fq_close
+
+theorem noRetryEndHook_fq (cfg : Cfg) (exc : Option Exn) (result : Option Nat) (d : AttemptDecision)
+    (stop : Option StopReason) (cause : Option Cause) (he : ∀ c, R (.attemptEnd c) = true) :
+    ⦃fun w => ⌜FootQ R w0 w⌝⦄ noRetryEndHook cfg exc result d stop cause ⦃fqPost R w0⦄ := by
+  mvcgen [noRetryEndHook, xElapsed]
+  fq_close
+
+include hbm hbl
+
+theorem checkBreaker_fq (cfg : Cfg) (ha : R .breakerAllow = true) :
+    ⦃fun w => ⌜FootQ R w0 w⌝⦄ checkBreaker cfg
+    ⦃post⟨fun _ w => ⌜FootQ R w0 w⌝, fun e w => ⌜FootE R e w0 w ∨ FootQ R w0 w⌝⟩⦄ := by
+  have h2 := fun w1 ev st k hm hl => emitBreakerEvent_fq R w1 cfg ev st k hm hl
+  mvcgen [checkBreaker, breakerAllow, h2]
+  fq_close
+  all_goals (first
+    | exact hbm _ (Breaker.allow_ev _ _ _ _ (by assumption)) _
+    | exact hbl _ (Breaker.allow_ev _ _ _ _ (by assumption)) _
+    | exact Or.inl (by fq_chain)
+    | exact Or.inr (by fq_chain)
+    | skip)
+
+theorem recordSuccess_fq (cfg : Cfg) (hs : R .breakerSuccess = true) :
+    ⦃fun w => ⌜FootQ R w0 w⌝⦄ Policy.recordSuccess cfg ⦃fqPost R w0⦄ := by
+  have h2 := fun w1 ev st k hm hl => emitBreakerEvent_fq R w1 cfg ev st k hm hl
+  mvcgen [Policy.recordSuccess, h2]
+  fq_close
+  all_goals (first
+    | exact hbm _ (Breaker.recordSuccess_ev _ _ (by assumption)) _
+    | exact hbl _ (Breaker.recordSuccess_ev _ _ (by assumption)) _
+    | skip)
+
+theorem recordFailure_fq (cfg : Cfg) (k : EClass) (hf : ∀ k, R (.breakerFailure k) = true) :
+    ⦃fun w => ⌜FootQ R w0 w⌝⦄ Policy.recordFailure cfg k ⦃fqPost R w0⦄ := by
+  have h2 := fun w1 ev st k hm hl => emitBreakerEvent_fq R w1 cfg ev st k hm hl
+  mvcgen [Policy.recordFailure, h2]
+  fq_close
+  all_goals (first
+    | exact hbm _ (Breaker.recordFailure_ev _ _ _ _ _ (by assumption)) _
+    | exact hbl _ (Breaker.recordFailure_ev _ _ _ _ _ (by assumption)) _
+    | skip)
+
+omit hbm hbl in
+theorem ensureSettled_fq (cfg : Cfg) (hc : R .breakerCancel = true) :
+    ⦃fun w => ⌜FootQ R w0 w⌝⦄ ensureSettled cfg ⦃fqPost R w0⦄ := by
+  have h1 := fun w1 => recordCancel_fq R w1 cfg hc
+  mvcgen [ensureSettled, h1]
+  fq_close
+
+omit hbm hbl in
+theorem handleAbortCall_fq (cfg : Cfg) (e : Exn) (he : ∀ c, R (.attemptEnd c) = true)
+    (hc : R .breakerCancel = true) :
+    ⦃fun w => ⌜FootQ R w0 w⌝⦄ handleAbortCall cfg e ⦃fqPost R w0⦄ := by
+  have h1 := fun w1 => recordCancel_fq R w1 cfg hc
+  have h2 := fun w1 a b c d f => noRetryEndHook_fq R w1 cfg a b c d f he
+  mvcgen [handleAbortCall, h1, h2]
+  fq_close
+
+theorem handleExhaustedCall_fq (cfg : Cfg) (e : Exn) (hf : ∀ k, R (.breakerFailure k) = true) :
+    ⦃fun w => ⌜FootQ R w0 w⌝⦄ handleExhaustedCall cfg e ⦃fqPost R w0⦄ := by
+  have h1 := fun w1 k => recordFailure_fq R w1 hbm hbl cfg k hf
+  mvcgen [handleExhaustedCall, h1]
+  fq_close
+
+end
+end Redress
+
+namespace Redress
+
+/-- From a `FootQ`/`FootE` lemma to "this view of the world is unchanged on success; on failure
+    whatever `FootE` implies about it". -/
+theorem view_of_fq {α V : Type} {x : M α} {R : Req → Bool} (view : World → V)
+    (Ex : V → Exn → World → Prop)
+    (hx : ∀ w0, ⦃fun w => ⌜FootQ R w0 w⌝⦄ x ⦃fqPost R w0⦄)
+    (hv : ∀ w w', FootQ R w w' → view w' = view w)
+    (he : ∀ e w w', FootE R e w w' → Ex (view w) e w') (v : V) :
+    ⦃fun w => ⌜view w = v⌝⦄ x ⦃post⟨fun _ w => ⌜view w = v⌝, fun e w => ⌜Ex v e w⌝⟩⦄ := by
+  apply triple_of_run
+  intro w hw
+  have := adequacy (hx w) w (FootQ.refl R w)
+  split <;> simp_all
+  · rw [← hw]; exact hv _ _ this
+  · rw [← hw]; exact he _ _ _ this
+
+/-- From a `FootQ`/`FootE` lemma to "this predicate on worlds is preserved". -/
+theorem inv_of_fq {α : Type} {x : M α} {R : Req → Bool} (I : World → Prop) (J : Exn → World → Prop)
+    (hx : ∀ w0, ⦃fun w => ⌜FootQ R w0 w⌝⦄ x ⦃fqPost R w0⦄)
+    (hI : ∀ w w', FootQ R w w' → I w → I w')
+    (hJ : ∀ e w w', FootE R e w w' → I w → J e w') :
+    ⦃fun w => ⌜I w⌝⦄ x ⦃post⟨fun _ w => ⌜I w⌝, fun e w => ⌜J e w⌝⟩⦄ := by
+  apply triple_of_run
+  intro w hw
+  have := adequacy (hx w) w (FootQ.refl R w)
+  split <;> simp_all
+  · exact hI _ _ this hw
+  · exact hJ _ _ _ this hw
+
+/-- `Ext`: the log only grows -/
+theorem Ext.grows {K : Kind → Bool} {w w' : World} (h : Ext K w w') : ∃ δ, w'.trace = δ ++ w.trace := by
+  obtain ⟨δ, e, _⟩ := h.trace
+  exact ⟨δ, e⟩
+
+/-- From an `Ext` lemma to "a predicate that survives growth of the log is preserved" (both exits). -/
+theorem inv_of_ext {α : Type} {x : M α} {K : Kind → Bool} (I : World → Prop)
+    (hx : ∀ w0, ⦃fun w => ⌜Ext K w0 w⌝⦄ x ⦃extPost K w0⦄)
+    (hI : ∀ w w', Ext K w w' → I w → I w') :
+    ⦃fun w => ⌜I w⌝⦄ x ⦃post⟨fun _ w => ⌜I w⌝, fun _ w => ⌜I w⌝⟩⦄ := by
+  apply triple_of_run
+  intro w hw
+  have := adequacy (hx w) w (Ext.refl K w)
+  split <;> simp_all <;> exact hI _ _ this hw
+
+end Redress
+
+/-! ### `Ext` for the policy-level leaves (any kind set `K` containing their requests; used by C07–C09) -/
+
+namespace Redress
+open Retry Policy
+
+section
+variable (K : Kind → Bool) (w0 : World)
+
+attribute [local spec] ask_ext
+
+theorem askMetric_extK (hm : K .metric = true) (ev : Event) (a s : Nat) (t : Tags) :
+    ⦃fun w => ⌜Ext K w0 w⌝⦄ askMetric ev a s t ⦃extPost K w0⦄ := by
+  mvcgen [askMetric]
+  ext_close
+
+theorem askLog_extK (hl : K .log = true) (ev : Event) (a s : Nat) (t : Tags) (ra : Option Int) :
+    ⦃fun w => ⌜Ext K w0 w⌝⦄ askLog ev a s t ra ⦃extPost K w0⦄ := by
+  mvcgen [askLog]
+  ext_close
+
+
+attribute [local spec] askMetric_extK askLog_extK
+
+theorem emitBreakerEvent_ext (hm : K .metric = true) (hl : K .log = true) (cfg : Cfg)
+    (ev : Option Event) (st : CState) (k : Option EClass) :
+    ⦃fun w => ⌜Ext K w0 w⌝⦄ emitBreakerEvent cfg ev st k ⦃extPost K w0⦄ := by
+  mvcgen [emitBreakerEvent, swallowException]
+  ext_close
+
+theorem noRetryStartHook_ext (hs : K .attemptStart = true) (cfg : Cfg) :
+    ⦃fun w => ⌜Ext K w0 w⌝⦄ noRetryStartHook cfg ⦃extPost K w0⦄ := by
+  mvcgen [noRetryStartHook, xElapsed]
+  ext_close
+
+theorem noRetryEndHook_ext (he : K .attemptEnd = true) (cfg : Cfg) (exc : Option Exn)
+    (result : Option Nat) (d : AttemptDecision) (stop : Option StopReason) (cause : Option Cause) :
+    ⦃fun w => ⌜Ext K w0 w⌝⦄ noRetryEndHook cfg exc result d stop cause ⦃extPost K w0⦄ := by
+  mvcgen [noRetryEndHook, xElapsed]
+  ext_close
+
+theorem policyOutcome_ext (ok : Bool) (value : Option Nat) (stop : Option StopReason) (attempts : Nat)
+    (lc : Option EClass) (le : Option String) (cause : Option Cause) :
+    ⦃fun w => ⌜Ext K w0 w⌝⦄ policyOutcome ok value stop attempts lc le cause ⦃extPost K w0⦄ := by
+  mvcgen [policyOutcome, xElapsed]
+  ext_close
+
+theorem classifyForBreaker_ext (hc : K .classify = true) (cfg : Cfg) (e : Exn) :
+    ⦃fun w => ⌜Ext K w0 w⌝⦄ classifyForBreaker cfg e ⦃extPost K w0⦄ := by
+  mvcgen [classifyForBreaker, callClassifier]
+  ext_close
+
+theorem abortIf_ext (ha : K .abortIf = true) :
+    ⦃fun w => ⌜Ext K w0 w⌝⦄ ask .abortIf ⦃extPost K w0⦄ := ask_ext K w0 _ ha
+
+end
+
+end Redress
